@@ -1007,6 +1007,9 @@ def normalize_strategy(draw):
         "points": draw(st.lists(point_recipe(na), min_size=1, max_size=6)),
         "batch": draw(st.sampled_from(["single", "list", "list", "nested", "scalar", "empty"])),
         "reflect": draw(st.booleans()),
+        # points given as an integer array (reported by seeding agents: wrapped coordinates / differences were
+        # written back into the integer array and truncated)
+        "int_points": draw(st.sampled_from([False, False, True])),
     }
 
 
@@ -1040,11 +1043,22 @@ def check_normalize(case):
     n = used_count(len(case["points"]), "single" if batch == "scalar" else batch)
     recipes = case["points"][:n]
     pts, _ = make_points(geo, recipes, "grid")
+    int_points = bool(case.get("int_points")) and batch != "scalar"
+    if int_points:
+        pts = np.rint(pts)
+        labs.append("integer-typed points")
     if batch == "scalar":
         inp = float(pts[0, 0])
     else:
         inp = reshape_batch(pts, batch)
-    out = np.asarray(g.normalize_point(np.array(inp, copy=True), reflect=reflect), dtype=float)
+    arg = np.array(inp, copy=True)
+    if int_points:
+        arg = arg.astype(np.int64)
+    before = np.array(arg, copy=True)
+    out = np.asarray(g.normalize_point(arg, reflect=reflect), dtype=float)
+    if arg.dtype != before.dtype or not np.array_equal(arg, before):
+        raise vio(S, spec, "input-modified", f"the array handed to normalize_point changed from {before.tolist()!r} to "
+                  f"{arg.tolist()!r}")
     if out.shape != np.shape(inp):
         raise vio(S, spec, "shape", f"input {np.shape(inp)} output {out.shape}")
     out2 = np.asarray(g.normalize_point(np.array(out, copy=True), reflect=reflect), dtype=float)
@@ -1122,6 +1136,7 @@ def distance_strategy(draw):
         "shift": draw(st.lists(st.one_of(st.sampled_from([0, 1, -1, 2, -3]), st.integers(-1000, 1000)),
                                min_size=3, max_size=3)),
         "shift_first": draw(st.booleans()),
+        "int_points": draw(st.sampled_from([False, False, True])),
     }
 
 
@@ -1180,9 +1195,15 @@ def check_distance(case):
     P2, E2 = make_points(geo, r2, coords)
     labs = [gg.grid_label(spec), "coords=" + coords, "batch=" + batch]
     any_per = any(ax.per for ax in geo.axes)
+    int_points = bool(case.get("int_points")) and coords != "cell"
+    if int_points:
+        P1, P2 = np.rint(P1), np.rint(P2)
+        labs.append("integer-typed points")
 
-    def run(A, B):
+    def run(A, B, as_int=True):
         a, b = reshape_batch(A, batch), reshape_batch(B, batch)
+        if int_points and as_int:
+            a, b = np.asarray(a).astype(np.int64), np.asarray(b).astype(np.int64)
         ka, kb = np.array(a, copy=True), np.array(b, copy=True)
         dv = np.asarray(g.difference_vector(a, b, coords=coords), dtype=float)
         ds = np.asarray(g.distance(a, b, coords=coords), dtype=float)
@@ -1322,7 +1343,8 @@ def check_distance(case):
                 unit = (ax.tol_dx * (abs(sc)) + 4 * sp(sc) * ax.dx) if coords == "cell" else 4 * sp(max(sc, ax.scale))
                 extra += unit + (abs(case["shift"][k]) + 2) * 2 * ax.tol_b + abs(case["shift"][k]) * 2 * sp(ax.len)
         if moved:
-            _, dq = run(Q, P2) if case["shift_first"] else run(P1, Q)
+            # (points shifted by whole periods are not integers any more: handed over as floats)
+            _, dq = run(Q, P2, as_int=False) if case["shift_first"] else run(P1, Q, as_int=False)
             lmin = min(ax.len for ax in geo.axes if ax.per)
             for j in range(npts):
                 sc = max(float(np.max(np.abs(P1[j]))), float(np.max(np.abs(P2[j]))))
